@@ -283,6 +283,31 @@ def generate(repo):
         return False
     g.fact('exposeShapeIsFramesByImage', 'prysm/detector.py:Detector.expose', expose_shape)
 
+    def expose_out_shape():
+        fn = get_def(dt, 'Detector.expose')
+        src = [ast.unparse(s_) for s_ in fn.body]
+        resh = [k for k, t in enumerate(src) if t.startswith('output = output.reshape(')]
+        if len(resh) != 1:
+            raise Untranslatable('reshape of expose')
+        k = resh[0]
+        full = {'output = output.reshape((frames, *aerial_img.shape))': 'frames :: shape',
+                'output = output.reshape((frames,) + aerial_img.shape)': 'frames :: shape',
+                'output = output.reshape(frames, *aerial_img.shape)': 'frames :: shape',
+                'output = output.reshape((*aerial_img.shape, frames))': 'shape ++ [frames]',
+                'output = output.reshape(aerial_img.shape + (frames,))': 'shape ++ [frames]',
+                'output = output.reshape(aerial_img.shape)': 'shape'}.get(src[k])
+        if full is None:
+            raise Untranslatable(f'reshape written as {src[k][:60]}')
+        nxt = src[k + 1] if k + 1 < len(src) else ''
+        sq = {'if frames == 1:\n    output = output[0, :, :]': 'List.tail', 'if frames == 1:\n    output = output[0]': 'List.tail',
+              'if frames == 1:\n    output = output[0, ...]': 'List.tail', 'if frames == 1:\n    output = output[..., 0]': 'List.dropLast'}.get(nxt)
+        if nxt.startswith('if frames') and sq is None:
+            raise Untranslatable(f'squeeze written as {nxt[:60]}')
+        body = f'if frames = 1 then {sq} ({full}) else {full}' if sq else full
+        return f'def exposeOutShape (frames : Nat) (shape : List Nat) : List Nat := {body}'
+    g.item('Detector.expose.outshape', 'prysm/detector.py:Detector.expose', lambda: get_def(dt, 'Detector.expose'), expose_out_shape,
+           f'def exposeOutShape (frames : Nat) (shape : List Nat) : List Nat := {M}.exposeOutShape frames shape')
+
     def flatten_order():
         """every flatten / reshape of expose works in C (row-major) order, so that pixel k of the flat vector is pixel k of
         the reshaped result whatever the memory layout of the input"""
@@ -368,21 +393,31 @@ def generate(repo):
             raise Untranslatable(f'mode table {modes}')
         ok_modes = all(modes.get(k) == 'intermediate_view.mean(axis=reduction_axes)' for k in ('avg', 'average', 'mean')) \
             and modes.get('sum') == 'intermediate_view.sum(axis=reduction_axes)'
+        outl = '(List.zipWith (fun s f => binOutLen s f) shape f)'
+        vs = f'{M}.interleave {outl} f' if inter else f'{M}.interleave f {outl}'
+        mt = ', '.join(f'("{k}", {"true" if v.startswith("intermediate_view.mean") else "false"})' for k, v in sorted(modes.items()))
         return (f'def binOutLen (s f : Int) : Int := {term}\n\n'
                 f'def binReduceAxes (ndim : Int) : Int × Int × Int := ({lo}, {hi}, {st})\n\n'
                 f'def binViewInterleavesOutAndFactor : Bool := {"true" if inter and view else "false"}\n\n'
-                f'def binModesAreMeanAndSum : Bool := {"true" if ok_modes else "false"}')
+                f'def binModesAreMeanAndSum : Bool := {"true" if ok_modes else "false"}\n\n'
+                f'def binViewShape (shape f : List Int) : List Int := {vs}\n\n'
+                f'def binModes : List (String × Bool) := [{mt}]')
     g.item('bindown', 'prysm/detector.py:bindown', lambda: get_def(dt, 'bindown'), bindown,
            f'def binOutLen (s f : Int) : Int := {M}.binOutLen s f\n'
            'def binReduceAxes (ndim : Int) : Int × Int × Int := (1, 2 * ndim, 2)\n'
            'def binViewInterleavesOutAndFactor : Bool := true\n'
-           'def binModesAreMeanAndSum : Bool := true')
+           'def binModesAreMeanAndSum : Bool := true\n'
+           f'def binViewShape (shape f : List Int) : List Int := {M}.binViewShape shape f\n'
+           f'def binModes : List (String × Bool) := {M}.binModes')
 
     def tile():
         fn = get_def(dt, 'tile')
         from pyexpr2lean import elementwise
         term = elementwise(find_assign(fn, 'output_shape'), {'array.shape': 's', 'factor': 'f'})
-        ok = interleave(find_assign(fn, 'shape2')) == ('array.shape', 'factor') \
+        il2 = interleave(find_assign(fn, 'shape2'))
+        if il2 not in (('array.shape', 'factor'), ('factor', 'array.shape')):
+            raise Untranslatable('shape2 of tile')
+        ok = il2 == ('array.shape', 'factor') \
             and interleave(find_assign(fn, 'shape1')) == ('slc', 'intermediate') \
             and ast.unparse(find_assign(fn, 'slc')) in ('(slice(s) for s in array.shape)', '[slice(s) for s in array.shape]') \
             and ast.unparse(find_assign(fn, 'intermediate')) in ('[None] * len(factor)', '(None,) * len(factor)') \
@@ -412,15 +447,21 @@ def generate(repo):
             raise Untranslatable('avg / average / mean scale differently')
         applied = any(ast.unparse(n) in ('view = view * sf', 'view = sf * view') for n in ast.walk(fn) if isinstance(n, ast.Assign)) \
             or any(ast.unparse(n) in ('view *= sf',) for n in ast.walk(fn) if isinstance(n, ast.AugAssign))
+        tvs = f'{M}.interleave shape f' if il2 == ('array.shape', 'factor') else f'{M}.interleave f shape'
+        tmt = ', '.join(f'("{k}", {"true" if sf_term(table[k]) == t_sum and sf_term(table[k]) not in t_avg else "false"})' for k in sorted(table))
         return (f'def tileOutLen (s f : Int) : Int := {term}\n\n'
                 'def tileScaleSum {K : Type} [Num K] (prodf : K) : K := ' + t_sum + '\n\n'
-                'def tileScaleAvg {K : Type} [Num K] : K := ' + t_avg.pop() + '\n\n'
-                f'def tileViewBroadcastsOverFactor : Bool := {"true" if ok and applied else "false"}')
+                'def tileScaleAvg {K : Type} [Num K] : K := ' + sorted(t_avg)[0] + '\n\n'
+                f'def tileViewBroadcastsOverFactor : Bool := {"true" if ok and applied else "false"}\n\n'
+                f'def tileViewShape (shape f : List Int) : List Int := {tvs}\n\n'
+                f'def tileModes : List (String × Bool) := [{tmt}]')
     g.item('tile', 'prysm/detector.py:tile', lambda: get_def(dt, 'tile'), tile,
            f'def tileOutLen (s f : Int) : Int := {M}.tileOutLen s f\n'
            'def tileScaleSum {K : Type} [Num K] (prodf : K) : K := Num.ofInt 1 / prodf\n'
            'def tileScaleAvg {K : Type} [Num K] : K := Num.ofInt 1\n'
-           'def tileViewBroadcastsOverFactor : Bool := true')
+           'def tileViewBroadcastsOverFactor : Bool := true\n'
+           f'def tileViewShape (shape f : List Int) : List Int := {M}.tileViewShape shape f\n'
+           f'def tileModes : List (String × Bool) := {M}.tileModes')
 
     # ------------------------------------------------------------------ bayer: slices and tables
     def slices():
@@ -514,6 +555,17 @@ def generate(repo):
         raise Untranslatable(f'green average written as {src[1]}')
     fact_item('deinterlaceAveragesGreens', 'prysm/bayer.py:demosaic_deinterlace', lambda: get_def(by, 'demosaic_deinterlace'), deinterlace)
 
+    def deinterlace_green():
+        """the green sample as a term of the two green planes (whatever its spelling)"""
+        fn = get_def(by, 'demosaic_deinterlace')
+        gs = [s_ for s_ in fn.body if isinstance(s_, ast.Assign) and ast.unparse(s_.targets[0]) == 'g']
+        if len(gs) != 1:
+            raise Untranslatable('demosaic_deinterlace: g assigned other than once')
+        return ('def deinterlaceGreen {K : Type} [Num K] (g1 g2 : K) : K := '
+                + Tr({'g1': 'g1', 'g2': 'g2'}, mode='num').expr(gs[0].value))
+    g.item('demosaic_deinterlace.green', 'prysm/bayer.py:demosaic_deinterlace', lambda: get_def(by, 'demosaic_deinterlace'), deinterlace_green,
+           f'def deinterlaceGreen {{K : Type}} [Num K] (g1 g2 : K) : K := {M}.deinterlaceGreen g1 g2')
+
     # ------------------------------------------------------------------ Malvar
     KNAME = {'kernel_G_at_R_or_B': 'kernelGAtRB', 'kernel_R_at_G_in_RB': 'kernelRAtGInRB',
              'kernel_R_at_G_in_BR': 'kernelRAtGInBR', 'kernel_R_at_B_in_BB': 'kernelRAtBInBB'}
@@ -532,6 +584,30 @@ def generate(repo):
         return '\n\n'.join(out)
     g.item('malvar.kernels', 'prysm/bayer.py:kernel_*', lambda: get_const(by, 'kernel_G_at_R_or_B'), kernels,
            '\n'.join(f'def {ln} : List (List Rat) := {M}.{ln}' for ln in KNAME.values()))
+
+    def malvar_boundary():
+        """the boundary rule of the four `ndimage.convolve` calls of demosaic_malvar (SciPy's default is 'reflect', cval unused)"""
+        fn = get_def(by, 'demosaic_malvar')
+        calls = [c for c in ast.walk(fn) if isinstance(c, ast.Call) and ast.unparse(c.func) in ('ndimage.convolve', 'ndimage.correlate')]
+        if len(calls) != 4:
+            raise Untranslatable(f'{len(calls)} filter calls in demosaic_malvar')
+        modes = set()
+        for c in calls:
+            kw = {k.arg: k.value for k in c.keywords}
+            if set(kw) - {'mode', 'cval', 'output'} or len(c.args) > 2:
+                raise Untranslatable(f'filter call {ast.unparse(c)[:60]}')
+            m_ = kw.get('mode')
+            if m_ is None:
+                modes.add('reflect')
+            elif isinstance(m_, ast.Constant) and m_.value in ('reflect', 'grid-mirror', 'constant', 'grid-constant', 'nearest', 'mirror', 'wrap', 'grid-wrap'):
+                modes.add({'grid-mirror': 'reflect', 'grid-constant': 'constant', 'grid-wrap': 'wrap'}.get(m_.value, m_.value))
+            else:
+                raise Untranslatable('boundary mode is not a literal')
+        if len(modes) != 1:
+            raise Untranslatable(f'filter calls use different boundary rules {sorted(modes)}')
+        return f'def malvarBoundary : BMode := .{modes.pop()}'
+    g.item('demosaic_malvar.boundary', 'prysm/bayer.py:demosaic_malvar', lambda: get_def(by, 'demosaic_malvar'), malvar_boundary,
+           'def malvarBoundary : BMode := .reflect')
 
     def malvar():
         fn = get_def(by, 'demosaic_malvar')
